@@ -1,22 +1,89 @@
-"""C07 cases: comparison, equality, hashing, sign."""
+"""C07 cases: comparison, equality, hashing, sign.
+
+Every two-operand operation (inherent const fns, operators, `Ord`/`PartialOrd` trait forms, `HashSet`
+lookup) sees every pair class on every configuration, including the edge grid, the 8192-bit
+instantiations of all four digit types and (thorough) the complete 8-bit enumeration.
+"""
 from .common import *
 
 BIN = ["eq", "ne", "cmp", "lt", "le", "gt", "ge", "max", "min", "op_eq", "op_ne", "op_lt", "op_le", "op_gt", "op_ge",
-       "ord_cmp", "partial_cmp", "ord_max", "ord_min"]
+       "ord_cmp", "partial_cmp", "ord_max", "ord_min", "hash_set"]
+CLAMP = ["clamp", "ord_clamp"]
+SIGN = ["signum", "is_positive", "is_negative"]
+
+
+def _digits(v, w, n):
+    m = (1 << w) - 1
+    return [(v >> (w * i)) & m for i in range(n)]
+
+
+def _undigits(ds, w):
+    return sum(d << (w * i) for i, d in enumerate(ds))
 
 
 def cmp_pair(rng, w, n):
     W = w * n
-    c = rng.randrange(10)
+    B = 1 << w
+    c = rng.randrange(14)
     if c < 3:
         t, a, b = pair(rng, w, n)
         return t, a, b
-    if c >= 8:
+    if c in (8, 9):
         # exactly one digit differs, at every position equally likely
         _, a = value(rng, w, n)
         i = rng.randrange(n)
         d = rng.choice([1, 1 << (w - 1), (1 << w) - 1, rng.randrange(1, 1 << w)])
         return "one-digit-diff@%d" % (i % 8), a, a ^ (d << (w * i))
+    if c == 10:
+        # two digits differ and order the two values in OPPOSITE directions (the higher one must win);
+        # everything else agrees.  n = 1: falls back to a single differing digit.
+        _, a = value(rng, w, n)
+        da = _digits(a, w, n)
+        db = list(da)
+        j = rng.randrange(n)
+        i = rng.randrange(j) if j else 0
+        def two():
+            if rng.random() < 0.5:
+                x = rng.randrange(B - 1)
+                return [x, rng.randrange(x + 1, B)]
+            return rng.choice([[0, 1], [B // 2 - 1, B // 2], [B - 2, B - 1], [0, B - 1]])
+        hi, lo = two(), two()
+        da[j], db[j] = hi[1], hi[0]
+        if i != j:
+            da[i], db[i] = lo[0], lo[1]
+        a, b = _undigits(da, w), _undigits(db, w)
+        if rng.random() < 0.5:
+            a, b = b, a
+        return "two-digit-diff-opposed", a, b
+    if c == 11:
+        # k digits (same positions) re-drawn from the extreme-digit set, the rest identical; half the time
+        # the same XOR mask is applied at every chosen position
+        _, a = value(rng, w, n)
+        k = rng.randrange(1, min(n, 4) + 1)
+        if rng.random() < 0.5:
+            i0 = rng.randrange(n - k + 1)            # a contiguous run of digits (word-at-a-time folds)
+            pos = list(range(i0, i0 + k))
+        else:
+            pos = rng.sample(range(n), k)
+        b = a
+        if rng.random() < 0.5:
+            m = rng.choice([1, B // 2, B - 1, rng.randrange(1, B)])
+            for i in pos:
+                b ^= m << (w * i)
+        else:
+            for i in pos:
+                b = (b & ~((B - 1) << (w * i))) | (digit_value(rng, w) << (w * i))
+        return "k-digit-diff", a, b
+    if c == 12:
+        # both operands are sign-/zero-extensions of narrow values around +-2^(w*j-1), +-2^(w*j) (the zones
+        # where "fits in j digits" tests change their answer)
+        j = rng.randrange(1, n + 1)
+
+        def narrow():
+            base = rng.choice([0, 1 << (w * j - 1), -(1 << (w * j - 1)), 1 << (w * j), -(1 << (w * j)),
+                               rng.randrange(-(1 << (w * j)), (1 << (w * j)) + 1)])
+            return pat(base + rng.randrange(-2, 3), W)
+        return "narrow-zone", narrow(), narrow()
     # agree on the k leading digits, differ below
     _, a = value(rng, w, n)
     k = rng.randrange(0, n + 1)
@@ -31,7 +98,72 @@ def cmp_pair(rng, w, n):
         # zero top digit, non-zero tail
         a &= (1 << (w * (n - 1))) - 1
         return "zerotop", a, b
+    if c == 13:
+        # agree on the k leading digits and differ by +-1 in the value below (carry / borrow runs)
+        return "agree-adjacent", a, pat(a + rng.choice([-1, 1]), W)
     return "agree%d" % k, a, b
+
+
+def clamp_triple(rng, w, n, signed):
+    """(tag, self, mn, mx): bounds that share leading digits, `self` inside / on / next to [mn, mx]."""
+    W = w * n
+    key = (lambda v: to_signed(v, W)) if signed else (lambda v: v)
+    t, mn, mx = cmp_pair(rng, w, n)
+    if key(mn) > key(mx):
+        mn, mx = mx, mn
+    lo, hi = key(mn), key(mx)
+    c = rng.randrange(12)
+    if c == 0:
+        x, tg = mn, "at-min"
+    elif c == 1:
+        x, tg = mx, "at-max"
+    elif c == 2:
+        x, tg = pat(lo - 1, W), "below-min"      # wraps to the far end at the type's minimum
+    elif c == 3:
+        x, tg = pat(hi + 1, W), "above-max"
+    elif c == 4:
+        x, tg = pat((lo + hi) // 2, W), "midpoint"
+    elif c in (5, 6):
+        base = mn if c == 5 else mx
+        lb = w * rng.randrange(1, n + 1)
+        x, tg = (base >> lb << lb) | rng.randrange(1 << lb), "low-digits-redrawn"
+    elif c == 7:
+        base = rng.choice([mn, mx])
+        x, tg = base ^ (rng.choice([1, 1 << (w - 1), (1 << w) - 1]) << (w * rng.randrange(n))), "one-digit-off-bound"
+    elif c in (8, 9):
+        x, tg = pat(lo + rng.randrange(hi - lo + 1), W), "inside"
+    elif c == 10:
+        x, tg = pat(rng.choice([lo, hi]) + rng.randrange(-3, 4), W), "near-bound"
+    else:
+        x, tg = value(rng, w, n)[1], "independent"
+    if rng.random() < 0.12:
+        mn, mx = mx, mn                              # min > max: the assert (unless the bounds are equal)
+        tg += "-swapped"
+    return "clamp-" + tg, x, mn, mx
+
+
+def sign_value(rng, w, n):
+    """patterns for signum / is_positive / is_negative: the sign lives in the top digit, zero-ness in all digits"""
+    W = w * n
+    B = 1 << w
+    c = rng.randrange(8)
+    if c < 3:
+        return value(rng, w, n)
+    if c == 3:
+        # exactly one non-zero digit, at any position
+        i = rng.randrange(n)
+        return "single-digit@%d" % (i % 8), rng.choice([1, B // 2, B - 1, B // 2 - 1, rng.randrange(1, B)]) << (w * i)
+    top = rng.choice([0, 0, B - 1, B // 2, B // 2 - 1, 1])
+    tail_bits = w * (n - 1)
+    if c == 4 or tail_bits == 0:
+        tail = 0
+    elif c == 5:
+        tail = (1 << tail_bits) - 1
+    elif c == 6:
+        tail = 1 << rng.randrange(tail_bits)
+    else:
+        tail = rng.randrange(1 << tail_bits)
+    return "top%x-tail" % (top >> (w - 4)), (top << tail_bits) | tail
 
 
 def _gen_main(rng, tier):
@@ -43,22 +175,42 @@ def _gen_main(rng, tier):
                 for op in BIN:
                     t, a, b = cmp_pair(rng, w, n)
                     yield f"{op} {s}{cfg} {hx(a)} {hx(b)}", t
+                for op in CLAMP:
+                    for _k in range(2):
+                        t, x, mn, mx = clamp_triple(rng, w, n, s == "i")
+                        yield f"{op} {s}{cfg} {hx(x)} {hx(mn)} {hx(mx)}", t
                 t, a, b = cmp_pair(rng, w, n)
-                _, c = value(rng, w, n)
-                for op in ("clamp", "ord_clamp"):
-                    yield f"{op} {s}{cfg} {hx(c)} {hx(a)} {hx(b)}", t
-                    yield f"{op} {s}{cfg} {hx(c)} {hx(b)} {hx(a)}", t
                 yield f"hash_eq {s}{cfg} {hx(a)} {hx(a)}", "hash"
+                yield f"hash_eq {s}{cfg} {hx(a)} {hx(b)}", "hash"
+                yield f"hash_routes {s}{cfg} {hx(b)}", "hash-routes"
+                yield f"hash_digits {s}{cfg} {hx(b)}", "hash-digits"
                 if s == "i":
-                    for op in ("signum", "is_positive", "is_negative"):
-                        t, a = value(rng, w, n)
+                    for op in SIGN:
+                        t, a = sign_value(rng, w, n)
                         yield f"{op} i{cfg} {hx(a)}", t
     if tier == "thorough":
+        rest = [op for op in BIN if op not in ("cmp", "eq", "lt", "ge")]
         for s in "ui":
             for op in ["cmp", "eq", "lt", "ge"]:
                 for a in range(256):
                     for b in range(256):
                         yield f"{op} {s}8x1 {hx(a)} {hx(b)}", "exhaustive8"
+            # every other two-operand form on an evenly spread 1/len(rest) of the complete 8-bit square
+            for a in range(256):
+                for b in range(256):
+                    op = rest[(a * 7 + b) % len(rest)]
+                    yield f"{op} {s}8x1 {hx(a)} {hx(b)}", "exhaustive8-rotated"
+            for a in range(256):
+                yield f"hash_routes {s}8x1 {hx(a)}", "exhaustive8"
+                if s == "i":
+                    for op in SIGN:
+                        yield f"{op} i8x1 {hx(a)}", "exhaustive8"
+            # clamp on the complete 8-bit edge cube plus neighbours
+            e = sorted(set(pat(v + d, 8) for v in edge_grid(8, 1) for d in (-1, 0, 1)))
+            for x in e:
+                for mn in e:
+                    for mx in e:
+                        yield f"{CLAMP[(x + mn + mx) % 2]} {s}8x1 {hx(x)} {hx(mn)} {hx(mx)}", "exhaustive8-clamp"
 
 
 def gen(rng, tier):
@@ -69,20 +221,60 @@ def gen(rng, tier):
 
 def _grid(rng, tier):
     lim = 20000 if tier == "thorough" else 700
+    per_pair = 8 if tier == "thorough" else 5
+    rest = [op for op in BIN if op != "cmp"]
     for cfg in GRID_CFGS:
+        w, n = wn(cfg)
+        g = edge_grid(w, n)
         for s in "ui":
-            for op in ("cmp", "op_lt", "eq", "max"):
-                for a, b in grid_pairs(rng, cfg, lim):
+            # `cmp` on every pair; the other 19 forms rotate so that each one sees an evenly spread share
+            for k, (a, b) in enumerate(grid_pairs(rng, cfg, lim)):
+                yield f"cmp {s}{cfg} {hx(a)} {hx(b)}", "edge-grid"
+                for j in range(per_pair):
+                    op = rest[(k * per_pair + j) % len(rest)]
                     yield f"{op} {s}{cfg} {hx(a)} {hx(b)}", "edge-grid"
+            # clamp on grid triples (complete for n = 1)
+            if len(g) ** 3 <= 200:
+                tr = [(x, mn, mx) for x in g for mn in g for mx in g]
+            else:
+                tr = [(rng.choice(g), rng.choice(g), rng.choice(g)) for _ in range(2000 if tier == "thorough" else 200)]
+            for k, (x, mn, mx) in enumerate(tr):
+                yield f"{CLAMP[k % 2]} {s}{cfg} {hx(x)} {hx(mn)} {hx(mx)}", "edge-grid-clamp"
+        for a in g:
+            for op in SIGN:
+                yield f"{op} i{cfg} {hx(a)}", "edge-grid"
+        for a in g[:: max(1, len(g) // 25)]:
+            yield f"hash_routes {'ui'[a % 2]}{cfg} {hx(a)}", "edge-grid"
 
 
 def _huge(rng, tier):
+    """the 8192-bit end of the quantifier, all four digit types: every operation form, differences at digit
+    positions spread over the whole array (indices > 255, last/first digit), all sign classes"""
+    npairs = 240 if tier == "thorough" else 60
     for cfg in HUGE_CFGS:
+        w, n = wn(cfg)
         vals = huge_values(rng, cfg)
+        pairs = [("huge", a, b) for a in vals for b in vals[:5]]
+        for i in (0, 1, n // 2, n - 2, n - 1):
+            # one differing digit at the ends / the middle of the array
+            a = vals[1]
+            pairs.append(("huge-one-digit-diff", a, a ^ (1 << (w * i))))
+        pairs += [cmp_pair(rng, w, n) for _ in range(npairs)]
         k = 0
-        for a in vals:
-            for b in vals[:5]:
-                s = "ui"[k % 2]
-                op = ['cmp', 'eq', 'op_lt', 'max'][k % 4]
-                k += 1
-                yield f"{op} {s}{cfg} {hx(a)} {hx(b)}", "huge"
+        for t, a, b in pairs:
+            for s in "ui":
+                op = BIN[k % len(BIN)]
+                k += 7                                  # 7 is coprime to len(BIN) = 20 and odd: all (op, s) meet
+                yield f"{op} {s}{cfg} {hx(a)} {hx(b)}", t if t.startswith("huge") else "huge-" + t
+        for j in range(12 if tier == "thorough" else 6):
+            s = "ui"[j % 2]
+            t, x, mn, mx = clamp_triple(rng, w, n, s == "i")
+            yield f"{CLAMP[(j // 2) % 2]} {s}{cfg} {hx(x)} {hx(mn)} {hx(mx)}", "huge-" + t
+        sv = [0, 1, (1 << (w * n)) - 1, 1 << (w * n - 1), (1 << (w * n - 1)) - 1, 1 << (w * (n - 1)), 1 << (w * (n - 1) - 1),
+              1 << (w * (n // 2))] + [sign_value(rng, w, n)[1] for _ in range(4)]
+        for j, a in enumerate(sv):
+            for op in (SIGN if tier == "thorough" else [SIGN[j % 3], SIGN[(j + 1) % 3]]):
+                yield f"{op} i{cfg} {hx(a)}", "huge-sign"
+        for j, a in enumerate(vals[:4]):
+            yield f"hash_routes {'ui'[j % 2]}{cfg} {hx(a)}", "huge-hash"
+            yield f"hash_digits {'iu'[j % 2]}{cfg} {hx(a)}", "huge-hash"
